@@ -9,3 +9,81 @@ Definition topo_case : Type :=
 (* (dom_new, dom_old, cod_new, cod_old, obj_old, obj_new) -- the argument order of the Rust function *)
 Definition run_topo (c : topo_case) : result :=
   let '(dn, dold, cn, cold, oo, on) := c in toposort dn dold cn cold oo on.
+
+(* result as the Rust `Result<Vec<_>, _>` seen by a checker (Panic/OutOfFuel have no counterpart) *)
+Definition result_opt (r : result) : option (option (list edge)) :=
+  match r with
+  | Ok l => Some (Some l)
+  | Cycle => Some None
+  | Panic | OutOfFuel => None
+  end.
+
+(* ---------- boolean oracle: "is `out` a correct answer for input c?" ---------- *)
+(* out = Some l : the implementation returned Ok(l);  out = None : it returned Err(CycleDetected) *)
+
+Definition topo_expected (c : topo_case) : list edge :=
+  let '(dn, dold, cn, cold, oo, on) := c in
+  flat_map (fun p : N * N =>
+              match get_cod cn cold (snd p) with
+              | Some d => [(snd p, fst p, d)]
+              | None => []
+              end) (dn ++ dold).
+
+Definition edge_eqb (a b : edge) : bool :=
+  (e_mor a =? e_mor b) && (e_src a =? e_src b) && (e_cod a =? e_cod b).
+
+Fixpoint remove1 (x : edge) (l : list edge) : option (list edge) :=
+  match l with
+  | [] => None
+  | y :: t => if edge_eqb x y then Some t
+              else match remove1 x t with Some t' => Some (y :: t') | None => None end
+  end.
+
+(* multiset equality *)
+Fixpoint perm_b (l1 l2 : list edge) : bool :=
+  match l1 with
+  | [] => match l2 with [] => true | _ :: _ => false end
+  | x :: t => match remove1 x l2 with Some l2' => perm_b t l2' | None => false end
+  end.
+
+(* no entry is a self-loop, and no later entry ends where an earlier entry starts *)
+Fixpoint order_b (l : list edge) : bool :=
+  match l with
+  | [] => true
+  | x :: t => negb (e_cod x =? e_src x)
+              && forallb (fun y => negb (e_cod y =? e_src x)) t
+              && order_b t
+  end.
+
+(* cyclicity by iterated removal of edges whose source has no incoming edge *)
+Definition has_pred (es : list edge) (e : edge) : bool :=
+  existsb (fun e' => e_cod e' =? e_src e) es.
+
+Fixpoint strip (fuel : nat) (es : list edge) : option (list edge) :=
+  match fuel with
+  | O => None
+  | S f =>
+      let es' := filter (has_pred es) es in
+      if Nat.eqb (length es') (length es) then Some es else strip f es'
+  end.
+
+Definition cyclic_b (E : list edge) : bool :=
+  match strip (S (length E)) E with
+  | Some (_ :: _) => true
+  | _ => false
+  end.
+
+Definition topo_ok_b (c : topo_case) (out : option (list edge)) : bool :=
+  match out with
+  | Some l => perm_b (topo_expected c) l && order_b l
+  | None => cyclic_b (topo_expected c)
+  end.
+
+(* decides the precondition WFin of the C18 theorems (FactsOracle.wfin_b_spec) *)
+Definition wfin_b (c : topo_case) : bool :=
+  let '(dn, dold, cn, cold, oo, on) := c in
+  forallb (fun p : N * N =>
+             match get_cod cn cold (snd p) with
+             | Some d => existsb (N.eqb (fst p)) (oo ++ on) && existsb (N.eqb d) (oo ++ on)
+             | None => true
+             end) (dn ++ dold).
